@@ -270,3 +270,20 @@ Theorem C12_end_to_end_evaluate_count_reverse : forall D has_ns hc rm rn rr,
       select rm rn rr hc D has_ns (QReverse q) c = Val (rev l).
 Proof. exact C12_path_evaluate_count_reverse. Qed.
 Print Assumptions C12_end_to_end_evaluate_count_reverse.
+
+(* the protocol FROM THE TEXT: for every typed text that compiles (every predicate-free path text is
+   typed: BuildWellFormed.path_text_typed), once Select has returned nil it returns nil for ever *)
+From XP.Proofs Require Import BuildWellFormed.
+
+Theorem C12_text_once_nil_always_nil : forall re_ok D has_ns hc rm rn rr F text ns q,
+  compile re_ok text ns = Ok q -> forall strict : bool, text_typed strict text ns = true ->
+  forall (s : state3 q) cur st' cur', 1 <= F -> Inv3 q s ->
+  select3 D has_ns hc rm rn rr F (existT _ q s) cur = R None st' cur' ->
+  forall k, all_nil D has_ns hc rm rn rr F k st'.
+Proof. exact C12_text_nil_is_final. Qed.
+Print Assumptions C12_text_once_nil_always_nil.
+
+Theorem C12_text_paths_are_typed : forall (strict : bool) ns p,
+  path_syntax p -> xok p -> text_typed strict (print_min p) ns = true.
+Proof. exact path_text_typed. Qed.
+Print Assumptions C12_text_paths_are_typed.
